@@ -65,9 +65,11 @@ func main() {
 			jobs = append(jobs, job{Idx: len(jobs), Kind: kind, TZ: tz})
 		}
 	}
-	add("direct", "UTC", c.Pick(420, 9000))
+	add("direct", "UTC", c.Pick(360, 9000))
 	add("ingest", "UTC", c.Pick(28, 400))
 	add("crash", "UTC", c.Pick(24, 400))
+	add("shutdown", "UTC", c.Pick(40, 800))
+	add("shutdownlock", "UTC", c.Pick(3, 12))
 	add("direct", "Asia/Shanghai", c.Pick(28, 300))
 	add("ingest", "Asia/Shanghai", c.Pick(2, 20))
 
@@ -80,6 +82,11 @@ func main() {
 		key := j.TZ
 		if j.Kind == "crash" {
 			key = "crash"
+		}
+		if j.Kind == "shutdownlock" {
+			// a deadlocked engine.Close keeps the store manager's mutex for ever: own process, last history
+			batches = append(batches, []job{j})
+			continue
 		}
 		if j.Kind == "crash" && c.Quick() {
 			batches = append(batches, []job{j})
@@ -176,6 +183,9 @@ func main() {
 	}
 	if n := c.Counter("crash.images_strictly_inside_the_rollup"); n < 10 {
 		c.Inconclusive("only %d crash images strictly inside a rollup", n)
+	}
+	if n := c.Counter("shutdown.engines_closed_during_a_rollup_job"); n < 10 {
+		c.Inconclusive("only %d engines were closed while a rollup job was in flight", n)
 	}
 	if n := c.Counter("reopens_with_pending_rollup_marks"); n < 2 {
 		c.Inconclusive("only %d reopens with pending rollup marks", n)
@@ -352,6 +362,20 @@ func genSpec(rnd *rand.Rand, j job, c *core.Ctx) *histSpec {
 		}
 		s.MaxImgs = c.Pick(130, 400)
 	}
+	if j.Kind == "shutdownlock" {
+		s.Scenario = "shutdown-at-first-of-two-targets"
+		s.GateFirst = true
+		if s.Src == msSecond {
+			s.Src = 10 * msSecond
+		}
+		s.Month, s.Year = []int64{5 * msMinute, 10 * msMinute}[j.Idx%2], []int64{msHour, 2 * msHour}[(j.Idx/2)%2]
+	}
+	if j.Kind == "shutdown" {
+		s.Scenario = []string{"shutdown-first-rollup", "shutdown-second-rollup", "shutdown-sibling-rolled-up"}[(j.Idx+int(c.Seed))%3]
+		if s.Src == msSecond {
+			s.Src = 30 * msSecond
+		}
+	}
 	if j.Kind == "ingest" {
 		s.Scenario = []string{"basic", "same-day-hours", "reopen-with-pending", "year-boundary"}[(j.Idx+int(c.Seed))%4]
 	}
@@ -470,6 +494,22 @@ func genSpec(rnd *rand.Rand, j job, c *core.Ctx) *histSpec {
 	// crash histories: family 0 is a filler hour of the same day created first, so the families that are rolled up
 	// are the 2nd/3rd of their store (kv family ids 2, 3) while the month/year target families are the 1st of theirs
 	// (id 1): source family id != target family id, a reference recorded under the wrong id cannot hide
+	// shutdown histories: exactly one source family carries rollup marks when the engine is closed under its job
+	case "shutdown-at-first-of-two-targets":
+		spot(year, month, day, rnd.Intn(24), "hour")
+		steps(fl(0), fl(0), "shutdown")
+	case "shutdown-first-rollup":
+		spot(year, month, day, 12, "filler-hour")
+		spot(year, month, day, []int{0, 23, 5}[rnd.Intn(3)], "hour")
+		steps(fl(1), fl(1), "shutdown")
+	case "shutdown-second-rollup":
+		spot(year, month, day, rnd.Intn(24), "hour")
+		steps(fl(0), "rollup", fl(0), fl(0), "shutdown")
+	case "shutdown-sibling-rolled-up":
+		hh := 2 + 2*rnd.Intn(11)
+		spot(year, month, day, hh, "even-hour")
+		spot(year, month, day, hh+1, "odd-hour-of-the-same-2h-slot")
+		steps(fl(1), fl(0), "rollup", fl(1), "shutdown")
 	case "crash-first-rollup":
 		spot(year, month, day, 12, "filler-hour")
 		spot(year, month, day, []int{0, 23}[rnd.Intn(2)], "edge-hour")
